@@ -50,6 +50,7 @@ def impl():
     from j1939.name import Name
     from j1939.diagnostic_messages import DTC, DtcLamp, Dm22, Dm1
     from j1939.controller_application import ControllerApplication
+    _OPERATIONAL = ControllerApplication.State.NORMAL
 
     def mid_of(l):
         return [MessageId(priority=l[0], parameter_group_number=l[1], source_address=l[2]).can_id]
@@ -141,6 +142,7 @@ def impl():
         # through Dm1._send: the four bytes appended for one DTC
         d = DTC(spn=l[0], fmi=l[1], oc=l[2]).dtc
         class FakeCa:
+            state = _OPERATIONAL          # the cyclic service sends only while its CA is operational
             def __init__(s): s.sent = None
             def send_pgn(s, dp, pf, ps, prio, data): s.sent = list(data)
         fc = FakeCa()
@@ -175,6 +177,7 @@ def impl():
         return fc.sent
 
     class FakeCa2:
+        state = _OPERATIONAL
         def __init__(s): s.sent = None; s.prio = None
         def send_pgn(s, dp, pf, ps, prio, data): s.sent = list(data); s.prio = prio
 
